@@ -125,11 +125,12 @@ def obligations_for(prop, ur):
             obs.append({'id': m['id'], 'kind': 'postcondition', 'fn': m['fn'], 'status': st, 'text': m['text'],
                         'diag': failed_ids.get(m['id'])})
     for f in g.functions:
-        if prop in f['props'] and f['has_body']:
+        # C13 (no operation panics): the body-safety obligation of EVERY function under contract
+        if (prop in f['props'] or prop == 'C13') and f['has_body']:
             if f['external_body']:
                 continue
             fid = f['id']
-            if f.get('inherits'):
+            if f.get('inherits') and prop in f['props']:
                 st = 'failed' if fid in inherited_failed else 'discharged'
                 obs.append({'id': fid + '#trait-contract', 'kind': 'postcondition(inherited)', 'fn': fid, 'status': st,
                             'text': 'transducer contract of the shim trait method (DESIGN 3.3)', 'diag': inherited_failed.get(fid)})
